@@ -1121,6 +1121,85 @@ func TestVerifSimHsSpecial(t *testing.T) {
 				getAssociationStateString(a0.getState()), t1i, a0.storedInit != nil, s.hsFinished(0), len(s.wire)-w)
 		})
 	}
+	// (6) a foreign peer: INIT (to a server) and INIT-ACK with cookie (to a client) listing every subset of
+	// {FORWARD-TSN, I-DATA, I-FORWARD-TSN} as supported extensions, against both local interleaving
+	// settings; the negotiated use flags (useInterleaving / useForwardTSN / useIForwardTSN) are part of the
+	// step records and must be what the model's hs_caps + hs_update_il give (C04 b, C17 framing clause).
+	for opt := 0; opt < 16; opt++ {
+		for sub := 0; sub < 8; sub++ {
+			scen++
+			sub := sub
+			exts := func(c *chunkInitCommon) {
+				types := []chunkType{ctReconfig}
+				if sub&1 != 0 {
+					types = append(types, ctForwardTSN)
+				}
+				if sub&2 != 0 {
+					types = append(types, ctIData)
+				}
+				if sub&4 != 0 {
+					types = append(types, ctIForwardTSN)
+				}
+				c.params = append(c.params, &paramSupportedExtensions{ChunkTypes: types})
+			}
+			fails += hsScenario(t, fmt.Sprintf("hs/foreign-extensions/opt=%d/sub=%d", opt, sub), opt, [2]int{hsClient, hsServer}, tr, func(h *hsRun) {
+				s := h.s
+				h.forged = true
+				h.start(0)
+				h.start(1)
+				a0 := s.assoc[0]
+				mk := func(from int, vt uint32, c chunk) *simPkt {
+					p := &packet{sourcePort: 5000, destinationPort: 5000, verificationTag: vt, chunks: []chunk{c}}
+					raw, err := p.marshal(true)
+					if err != nil {
+						s.t.Fatalf("marshal: %v", err)
+					}
+					q := &packet{}
+					_ = q.unmarshal(false, raw)
+					sp := &simPkt{id: s.nextID, from: from, raw: raw, at: s.now(), pkt: q}
+					s.nextID++
+					return sp
+				}
+				inj := func(from int, p *simPkt) {
+					s.flight[from] = append(s.flight[from], p)
+					s.deliver(from, len(s.flight[from])-1, false)
+				}
+				// the genuine INIT never arrives; the server sees the foreign one
+				for len(s.flight[0]) > 0 {
+					s.drop(0, 0)
+				}
+				ci := &chunkInit{}
+				ci.initiateTag, ci.initialTSN, ci.numInboundStreams, ci.numOutboundStreams, ci.advertisedReceiverWindowCredit = 4242, 99, 10, 10, 100000
+				exts(&ci.chunkInitCommon)
+				inj(0, mk(0, 0, ci))
+				// the server's INIT-ACK is thrown away; the client sees a foreign INIT-ACK with a cookie
+				for len(s.flight[1]) > 0 {
+					s.drop(1, 0)
+				}
+				ia := &chunkInitAck{}
+				ia.initiateTag, ia.initialTSN, ia.numInboundStreams, ia.numOutboundStreams, ia.advertisedReceiverWindowCredit = 77, 88, 10, 10, 100000
+				exts(&ia.chunkInitCommon)
+				ck := []byte("a cookie of a foreign implementation")
+				if mc := s.assoc[1].myCookie; mc != nil {
+					ck = append([]byte{}, mc.cookie...) // the cookie the server side issued: the model's echo is "mine"
+				}
+				ia.params = append(ia.params, &paramStateCookie{cookie: ck})
+				inj(1, mk(1, a0.myVerificationTag, ia))
+				for side := 0; side < 2; side++ {
+					a := s.assoc[side]
+					a.lock.RLock()
+					ui, uf, uif, li, pi := a.useInterleaving, a.useForwardTSN, a.useIForwardTSN, a.localInterleaving, a.peerInterleaving
+					a.lock.RUnlock()
+					if ui != (li && pi) {
+						s.fail("C17", fmt.Sprintf("(framing-not-as-negotiated) side=%d useInterleaving=%v but local=%v peer=%v (extensions subset %d)", side, ui, li, pi, sub))
+					}
+					if (uf && ui) || (uif && !ui) {
+						s.fail("C17", fmt.Sprintf("(forward-variant-mismatch) side=%d useInterleaving=%v useForwardTSN=%v useIForwardTSN=%v (extensions subset %d)", side, ui, uf, uif, sub))
+					}
+				}
+			})
+		}
+	}
 	fmt.Printf("SIMHSSPECIAL scenarios=%d records=%d kinds=%v fails=%d\n", scen, tr.n, tr.kinds, fails)
 }
 
